@@ -42,7 +42,7 @@ func TestWorker(t *testing.T) {
 	log.SetOutput(io.Discard)
 	debug.SetGCPercent(800)
 	debug.SetMaxStack(48 << 20) // die quickly on runaway recursion
-	labs := map[string]*lab{"S1": newLab("S1", sdl1), "S2": newLab("S2", sdl2)}
+	labs := newLabs()
 	out := os.NewFile(3, "responses")
 	w := bufio.NewWriter(out)
 	sc := bufio.NewScanner(os.Stdin)
